@@ -120,7 +120,8 @@ func main() {
 		"around and beyond msize-11 / msize-23, every Dir field incl. sub-second and out-of-range times, 0..17 walk names, empty/long/non-UTF8 names) " +
 		"and a scripted result or error; issued in sequences and in concurrent sets over an unbounded-buffer connection and over net.Pipe; " +
 		"(reply Method args msg) cases feed the client arbitrary reply messages through a custom Handler; (flow N observed) cases run N concurrent callers " +
-		"over net.Pipe. A case is non-trivial when an argument or result is clipped, an error crosses the wire, a request is refused before sending, " +
+		"over net.Pipe; (barrier N observed) cases run N (130..2000) concurrent callers against a session whose calls return only when all N have arrived; " +
+		"pipelined-read rounds issue 16-64 callers x 10-30 back-to-back Reads with identity-dependent payloads over a slowly drained connection. A case is non-trivial when an argument or result is clipped, an error crosses the wire, a request is refused before sending, " +
 		"or it ran concurrently with others; distinct = distinct canonical case text."
 	seed := strconv.FormatUint(r.Seed, 10)
 	extra := map[string]interface{}{}
@@ -146,6 +147,21 @@ func main() {
 	res = runChild(r, "flow", map[string]string{"C09_SEED": seed + "5", "C09_ROUNDS": strconv.Itoa(r.N(12, 60))},
 		time.Duration(r.N(400, 1500))*time.Second, extra)
 	childVerdict(r, res, "net.Pipe-concurrent")
+
+	// (5) more calls in flight than any fixed bound a server might put on running handlers:
+	// N concurrent callers against a session whose calls return only when all N have arrived
+	ns := "130,200,300"
+	if r.Thorough() {
+		ns = "129,130,200,300,500,1000,2000,257"
+	}
+	res = runChild(r, "barrier", map[string]string{"C09_SEED": seed + "9", "C09_NS": ns},
+		time.Duration(r.N(400, 1500))*time.Second, extra)
+	childVerdict(r, res, "barrier-session")
+
+	// (6) pipelined concurrent reads with identity-dependent payloads, replies queueing in the server
+	res = runChild(r, "reads", map[string]string{"C09_SEED": seed + "11", "C09_ROUNDS": strconv.Itoa(r.N(8, 40))},
+		time.Duration(r.N(600, 1500))*time.Second, extra)
+	childVerdict(r, res, "pipelined-reads")
 
 	for k, v := range extra {
 		r.Extra[k] = v
